@@ -12,6 +12,7 @@ func init() {
 func checkC02(r *Run) {
 	r.Explain = "C02: (R1) Unspents.GetArray succeeds only if every requested hash was found in the pool; (R2) processTransactions rejects (follower) or skips the later one (publisher) when two transactions of a block share an input or would create the same output; (R3) ProcessBlock inserts an output only after checking it is not in the pool; (R4) output ids derive from the creating transaction's hash; (R5) the unspent bucket is written only by block execution, deleting exactly the looked-up inputs and inserting exactly the created outputs."
 	r.NotDec = "set equality (created minus spent) for a concrete history; hash collision freedom"
+	ruleChainConfigPassthrough(r, "C02-R2")
 	r.RequireOnSuccess("C02-R1", "visor/blockdb.Unspents.GetArray",
 		req("every requested hash read without error", "forall(i < len($2)): ok(visor/blockdb.pool.get($0.pool, $1, $2[i]))"),
 		req("every requested hash exists (non-nil)", "forall(i < len($2)): visor/blockdb.pool.get($0.pool, $1, $2[i])#0 != nil"))
@@ -164,6 +165,13 @@ func checkC06(r *Run) {
 			}
 		}
 	}
+	// removing a block's transactions from the pool visits every hash handed in (no early stop), and removes
+	// both the transaction record and its predicted outputs
+	r.RequireOnSuccess("C06-R4", "visor.UnconfirmedTransactionPool.RemoveTransactions",
+		req("every given hash is removed", "forall(i < len($2)): ok(visor.UnconfirmedTransactionPool.removeTransaction($0, $1, $2[i]))"))
+	r.RequireOnSuccess("C06-R4", "visor.UnconfirmedTransactionPool.removeTransaction",
+		req("transaction record deleted", "ok(visor.unconfirmedTxns.delete($0.txns, $1, $2))"),
+		req("its predicted outputs deleted", "ok(visor.txnUnspents.delete($0.unspent, $1, $2))"))
 	// R5
 	hv := "iface:visor.Blockchainer.VerifySingleTxnHardConstraints($2, $1, *[i].Transaction, 1)"
 	r.RequireOnSuccess("C06-R5", "visor.UnconfirmedTransactionPool.RemoveInvalid",
